@@ -8,6 +8,9 @@
 (*   FileStorage.restore / _data_find, record by record.                   *)
 (*   CopyAgrees(H): the copy answers every revision query as the source.   *)
 (*                                                                         *)
+(* Part (a') CopyRange(H, a, ...): the same loop over src.iterator(start),  *)
+(*   with the two deviations of the code behind Boolean parameters.        *)
+(*                                                                         *)
 (* Part (b)  a damaged data file at transaction granularity and what       *)
 (*   fsrecover may put out for it: the three clauses of the property as    *)
 (*   operators over (file, output).  The tool's loop that is checked       *)
@@ -71,6 +74,50 @@ CopyAgrees(H, Oids) == ObsTable(CopyHist(H), Oids) = ObsTable(H, Oids)
 \* and, stronger, the same kind of record everywhere (data stays data, a back-pointer stays a back-pointer)
 CopyExact(H) == StripHist(CopyHist(H)) = StripHist(H)
 
+(* ----------------------- (a') copy of a range --------------------------- *)
+(* dst.copyTransactionsFrom(src.iterator(start)): the loop of copy() over the transactions with tid >= start.  *)
+(* The records carry the data and data_txn the iterator reports from the WHOLE source, so a back-pointer       *)
+(* record may name a transaction that is not in the destination.  restore() documents prev_txn as a hint that  *)
+(* is ignored when the transaction does not exist (RestoreFound is FALSE: the data is written).                *)
+(* Two deviations of the code from that are behind Boolean parameters:                                         *)
+(*   hintRaises  restore() looks the hint up with _txn_find, which raises UndoError("Invalid transaction id")  *)
+(*               when there is no such transaction                                                             *)
+(*   noLoadBlob  a blob-enabled destination copies with blob.copyTransactionsFromTo, which calls               *)
+(*               source.loadBlob for a record that holds a blob - and a FileIterator has no loadBlob           *)
+(* blobs is the set of oids whose records are blob records (a matter of concretisation: the class).            *)
+RestoreRaises(D, prev) == prev # 0 /\ TidPos(D, prev) = 0
+RecOutcome(D, it, blobs, hintRaises, noLoadBlob) ==
+  IF noLoadBlob /\ it.oid \in blobs /\ it.d # Gone THEN "AttributeError"       \* is_blob_record(data): loadBlob
+  ELSE IF hintRaises /\ RestoreRaises(D, it.dtxn) THEN "UndoError"
+  ELSE "ok"
+RECURSIVE TxnOutcome(_, _, _, _, _, _, _)
+TxnOutcome(H, D, T, j, blobs, hintRaises, noLoadBlob) ==
+  IF j > Len(T.recs) THEN "ok"
+  ELSE LET o == RecOutcome(D, IterRec(H, T.recs[j]), blobs, hintRaises, noLoadBlob)
+       IN IF o # "ok" THEN o ELSE TxnOutcome(H, D, T, j + 1, blobs, hintRaises, noLoadBlob)
+RECURSIVE RangeCopyFrom(_, _, _, _, _, _)
+RangeCopyFrom(H, k, D, blobs, hintRaises, noLoadBlob) ==
+  IF k > Len(H) THEN [out |-> "ok", h |-> D]
+  ELSE LET o == TxnOutcome(H, D, H[k], 1, blobs, hintRaises, noLoadBlob)
+       IN IF o # "ok" THEN [out |-> o, h |-> D]
+          ELSE RangeCopyFrom(H, k + 1, Append(D, CopyTxn(H, D, H[k])), blobs, hintRaises, noLoadBlob)
+FirstFrom(H, a) == Cardinality({i \in 1..Len(H) : H[i].tid < a}) + 1
+CopyRange(H, a, blobs, hintRaises, noLoadBlob) == RangeCopyFrom(H, FirstFrom(H, a), <<>>, blobs, hintRaises, noLoadBlob)
+\* what the property demands of the copy of a range: the transactions of the range as the source lists them
+\* (ids, status, metadata, records with their data); data_txn is reported where the transaction it names is
+\* in the range as well
+RangeView(H, a) ==
+  LET v == IterView(H)
+      R == SelectSeq(v, LAMBDA t : t.tid >= a)
+  IN [i \in 1..Len(R) |-> [tid |-> R[i].tid, status |-> R[i].status, meta |-> R[i].meta,
+                            recs |-> [j \in 1..Len(R[i].recs) |->
+                                       [oid |-> R[i].recs[j].oid, d |-> R[i].recs[j].d,
+                                        dtxn |-> IF R[i].recs[j].dtxn >= a THEN R[i].recs[j].dtxn ELSE 0]]]]
+RangeCopyAgrees(H, a, blobs, hintRaises, noLoadBlob) ==
+  LET r == CopyRange(H, a, blobs, hintRaises, noLoadBlob)
+  IN r.out = "ok" /\ IterView(r.h) = RangeView(H, a)
+RangeStarts(H) == {1} \cup {H[i].tid : i \in 1..Len(H)} \cup {H[i].tid + 1 : i \in 1..Len(H)}
+
 (* ------------------- (b) damaged file, allowed output ------------------ *)
 (* A data file is a sequence of transaction extents.  Extent i:                                         *)
 (*   [s, e]   first byte and one past the last byte (the redundant length included)                     *)
@@ -86,13 +133,18 @@ Touched(F, i) == Overlaps(F, i) \/ \E r \in F.ext[i].deps : Ovl(r[1], r[2], F.lo
 EndsBeforeDamage(F, i) == F.lo < F.hi => F.ext[i].e <= F.lo
 NT(F) == Len(F.ext)
 
-(* The output is a sequence of [src, same]: the input transaction (index) whose header the tool read     *)
-(* when it wrote that output transaction (0: no input transaction starts there) and whether id, status,  *)
-(* metadata and every record (oid, data) are unchanged.                                                  *)
+(* The output is a sequence of [src, same, whole]: the input transaction (index) whose header the tool   *)
+(* read when it wrote that output transaction (0: no input transaction starts there); whether id,        *)
+(* status, metadata and every record (oid, data) are unchanged; whether it has as many records as the    *)
+(* input transaction.  A transaction that overlaps the damage may come out with altered bytes (the       *)
+(* format has no checksum), but a transaction put out under the input's id with only some of its records *)
+(* is not a transaction of the input: "record for record".                                               *)
 OnlyInput(out) == \A k \in 1..Len(out) : out[k].src # 0
+WholeTransactions(out) == \A k \in 1..Len(out) : out[k].whole
 Ordered(out) == \A k \in 1..Len(out) : \A m \in 1..Len(out) : k < m => out[k].src < out[m].src
 UntouchedUnchanged(F, out) == \A k \in 1..Len(out) : (out[k].src # 0 /\ ~Touched(F, out[k].src)) => out[k].same
-OutputIsOrderedSubsequenceOfInput(F, out) == OnlyInput(out) /\ Ordered(out) /\ UntouchedUnchanged(F, out)
+OutputIsOrderedSubsequenceOfInput(F, out) ==
+  OnlyInput(out) /\ Ordered(out) /\ UntouchedUnchanged(F, out) /\ WholeTransactions(out)
 PrefixBeforeDamageRecovered(F, out) ==
   \A i \in 1..NT(F) : EndsBeforeDamage(F, i) => \E k \in 1..Len(out) : out[k].src = i /\ out[k].same
 \* an undamaged file comes out identical
